@@ -358,10 +358,14 @@ func runC11(r *vk.Run) {
 	r.Require("overflowing_group_sums", 100)
 	// avg over groups whose SUM overflows although their MEAN is an ordinary number (three series of
 	// 1e308): the mean is what avg denotes; it is computed here with arbitrary precision
-	r.Phase("bigavg", r.N(300, 40000), func(c *vk.Case) {
+	r.Phase("bigavg", r.N(400, 40000), func(c *vk.Case) {
 		rng := c.Rng
 		var recs []Rec
 		used := map[string]bool{}
+		infSign := ""
+		if c.Idx%4 == 3 {
+			infSign = vk.Pick(rng, []string{"+", "-"})
+		}
 		for i := 0; i < rng.Range(3, 8); i++ {
 			l := map[string]string{"job": "j", "a": vk.Pick(rng, []string{"x", "y"}), "b": vk.Pick(rng, []string{"p", "q", "r", "s", "t"})}
 			if used[labelKey(l)] {
@@ -369,6 +373,10 @@ func runC11(r *vk.Run) {
 			}
 			used[labelKey(l)] = true
 			v := vk.Pick(rng, []string{"1e308", "9e307", "1.7e308", "8e307", "1e308", "5", "-1e308", "-9e307"})
+			if infSign != "" {
+				// members that are infinite, all of one sign: the mean of such a group is that infinity
+				v = vk.Pick(rng, []string{infSign + "Inf", infSign + "Inf", "1", "5", "1e308", "-7"})
+			}
 			recs = append(recs, Rec{TS: metricT0 + 5e8 + int64(rng.Intn(3000))*1e6, Line: "v=" + v, Labels: l})
 		}
 		sortRecs(recs)
@@ -388,6 +396,7 @@ func runC11(r *vk.Run) {
 			return
 		}
 		sums := map[string]*big.Float{}
+		infs := map[string]int{}
 		counts := map[string]int{}
 		maxAbs := map[string]float64{}
 		for _, sv := range leaf.Eval(env, T).M {
@@ -397,6 +406,15 @@ func runC11(r *vk.Run) {
 			}
 			if sums[g] == nil {
 				sums[g] = new(big.Float).SetPrec(200)
+			}
+			counts[g] += 0
+			if math.IsInf(sv.V, 0) {
+				infs[g] = 1
+				if sv.V < 0 {
+					infs[g] = -1
+				}
+				counts[g]++
+				continue
 			}
 			sums[g].Add(sums[g], new(big.Float).SetPrec(200).SetFloat64(sv.V))
 			counts[g]++
@@ -414,6 +432,15 @@ func runC11(r *vk.Run) {
 				c.Fail("", fmt.Sprintf("%s: unexpected series %v", text, s.Labels), det)
 				return
 			}
+			if infs[g] != 0 {
+				if got := s.Points[0].V; !math.IsInf(got, infs[g]) {
+					c.Fail("", fmt.Sprintf("%s: group %q = %v, its %d members include infinities of one sign (%+d): the mean is that infinity", text, g, got, counts[g], infs[g]), det)
+					return
+				}
+				c.Count("avg_groups_with_infinite_members", 1)
+				c.Nontrivial(fmt.Sprintf("infavg|%d|%s", c.Idx, g))
+				continue
+			}
 			want, _ := new(big.Float).Quo(sums[g], new(big.Float).SetInt64(int64(counts[g]))).Float64()
 			// members of opposite sign cancel: the error float64 arithmetic may leave is relative to the
 			// largest member, not to the (possibly tiny) mean
@@ -428,6 +455,7 @@ func runC11(r *vk.Run) {
 		}
 	})
 	r.Require("avg_groups_with_overflowing_sum", 50)
+	r.Require("avg_groups_with_infinite_members", 30)
 
 	// input vectors with NaN members (unwrap of "NaN", which ParseFloat accepts). NaN has no rank, so only
 	// what every placement of NaN agrees on is demanded: top-k/bottom-k return min(k, n) series of the
